@@ -943,6 +943,18 @@ func (r *txRunner) execSelPerm(tok []string) string {
 	}
 	txs, acc := r.cache.SelectTransactions(s.fresh(), gas, maxNum, time.Hour)
 	base := selOut(txs, acc)
+	// the rebuilt pools must hold exactly the same set: no per-sender limit may trim in them, whatever the insertion order.
+	// With caller-declared sizes beyond the largest accepted byte limit (32 MiB) that cannot be arranged: not comparable.
+	perSender := map[string]int64{}
+	for _, d := range all {
+		perSender[string(d.sender)] += d.size
+	}
+	for _, b := range perSender {
+		if b > 33_554_432 {
+			r.tag("selperm-skipped-oversized")
+			return base
+		}
+	}
 	rng := rand.New(rand.NewSource(seed))
 	saved := r.cfg
 	r.cfg.evict = false
